@@ -173,6 +173,20 @@ def _run(prop, a, seed, t0):
             continue
         ref = [(u, o) for u, o in insts if o.verdict == "refuted"]
         if not ref:
+            # candidate counterexamples (quantified hypotheses dropped): only a failing replay makes them count
+            for u, o in insts:
+                if o.verdict == "candidate" and u.to_case is not None and rtc is not None and oid not in seen_refuted:
+                    try:
+                        case = u.to_case(o)
+                    except Exception:
+                        case = None
+                    if case is not None:
+                        ok, msg = rtc.replay(case)
+                        if not ok:
+                            seen_refuted.add(oid)
+                            path = _write_replay(prop, oid, {"property": prop, "obligation": oid, "source": "undecided VC; candidate counterexample of its quantifier-free part fails on the real code", "backend": o.backend, "solver_model": o.model, "case": case, "replay_message": str(msg)})
+                            violations.append((f"obligation {oid} undecided; candidate counterexample fails on the real code: {msg}", path, False))
+                            break
             undecided.append(oid)
             continue
         if oid in seen_refuted:
